@@ -259,7 +259,7 @@ def check(pid, tier, runs=None, workers=None, quiet=False):
             if p[0] != dec:
                 dec_mismatch.append((idx, j.hashseed))
             elif p[1] != ev:
-                ev_mismatch.append((idx, j.hashseed))
+                ev_mismatch.append((idx, j.hashseed, j.start, j.step))
     if dec_mismatch:
         print(f'HARNESS-FAILURE: decision log differs across hash seeds for runs {dec_mismatch[:5]}')
         return 2
@@ -268,24 +268,38 @@ def check(pid, tier, runs=None, workers=None, quiet=False):
     kn = known.load()
     reported = []
     known_lines = []
-    # hash-seed divergence of results: the violation itself for C17/C15
+    # divergence of results between two fresh interpreters: the violation itself for C17/C15,
+    # once confirmed and classified (hash seed, or history of earlier calls in the process)
     if ev_mismatch:
         if getattr(prop, 'HASHSEED_IS_VIOLATION', False):
-            idx, hs = ev_mismatch[0]
-            trace = plan_run(prop, seed, tier, idx)
-            trace['hashseed_pair'] = [0, hs]
-            v = Violation('hashseed', 'result-differs-across-hash-seeds',
-                          {'run': idx, 'hashseeds': [0, hs]})
-            path = write_replay(pid, seed, idx, trace, v, note='replay with: vsim replay <file> '
-                                '(re-executes the run under both hash seeds and diffs)')
+            idx, hs, rstart, rstep = ev_mismatch[0]
+            kind, doc = classify_divergence(pid, tier, seed, idx, hs, workers, rstart, rstep)
+            if kind is None:
+                print(f'HARNESS-FAILURE: run {idx} gave different result digests in two worker interpreters but '
+                      f'neither a hash-seed pair nor the two run histories reproduce the difference')
+                return 2
+            v = Violation('divergence', kind, {'run': idx, **doc})
+            d = os.path.join(env.VERIF_DIR, 'replays')
+            os.makedirs(d, exist_ok=True)
+            path = os.path.join(d, f'{pid}-{seed}-{idx}-divergence.json')
+            with open(path, 'w') as fh:
+                json.dump({'property': pid, 'seed': seed, 'tier': tier, 'run': idx, 'signature': v.sig,
+                           'divergence': doc, 'penman_tree': env.tree_hash()}, fh, indent=1)
             print(f'VIOLATION property={pid} replay={path}')
-            print(f'  oracle=hashseed run={idx} PYTHONHASHSEED 0 vs {hs}: per-operation results differ')
+            if kind == 'result-depends-on-hash-seed':
+                print(f'  oracle=divergence run={idx}: per-operation results differ between PYTHONHASHSEED '
+                      f'{doc["hashseeds"][0]} and {doc["hashseeds"][1]}')
+            else:
+                print(f'  oracle=divergence run={idx}: per-operation results depend on which earlier runs were executed '
+                      f'in the same process (state kept between calls): after {doc["histories"][0][:-1]} vs after '
+                      f'{doc["histories"][1][:-1]}')
+            print('  first differing event: ' + doc.get('first_difference', '')[:900])
             reported.append(v.sig)
             rc = 1
         else:
-            print(f'NOTE: {len(ev_mismatch)} replica runs produced different result digests under '
-                  f'another hash seed while every oracle of {pid} held in both executions '
-                  f'(hash-seed independence is C17\'s subject)')
+            print(f'NOTE: {len(ev_mismatch)} replica runs produced different result digests in another worker '
+                  f'interpreter while every oracle of {pid} held in both executions '
+                  f'(independence from hash seed and call history is C17\'s subject)')
 
     # violations ---------------------------------------------------------
     unknown = sorted((ex for ex in viol.values() if not ex['known']), key=lambda e: e['run'])
@@ -470,6 +484,8 @@ def replay(path):
         doc = json.load(fh)
     pid = doc['property']
     prop = load_prop(pid)
+    if 'divergence' in doc:
+        return replay_divergence(doc)
     if 'sequence' in doc:
         print(f'vsim replay: property={pid} run sequence {doc["sequence"]} (one process, in order)')
         hit = []
@@ -504,6 +520,61 @@ def replay(path):
     return 0
 
 
+def _events_in_fresh(pid, tier, seed, runs, hashseed):
+    e = dict(os.environ)
+    e['PYTHONHASHSEED'] = str(hashseed)
+    e['PYTHONDONTWRITEBYTECODE'] = '1'
+    e['PYTHONIOENCODING'] = 'utf-8'
+    p = subprocess.run([sys.executable, '-B', MAIN, '_events', '--prop', pid, '--tier', tier, '--seed', str(seed),
+                        '--runs', ','.join(map(str, runs))], env=e, capture_output=True, text=True,
+                       cwd=env.VERIF_DIR, timeout=900)
+    return p.stdout if p.returncode == 0 else None
+
+
+def _first_diff(a, b):
+    la, lb = (a or '').splitlines(), (b or '').splitlines()
+    for i, (x, y) in enumerate(zip(la, lb)):
+        if x != y:
+            return f'#{i}: {x[:400]}  |vs|  {y[:400]}'
+    return f'lengths {len(la)} vs {len(lb)}'
+
+
+def classify_divergence(pid, tier, seed, idx, hs, workers, rstart, rstep):
+    a = _events_in_fresh(pid, tier, seed, [idx], 0)
+    b = _events_in_fresh(pid, tier, seed, [idx], hs)
+    if a is not None and b is not None and a != b:
+        return 'result-depends-on-hash-seed', {'hashseeds': [0, hs], 'first_difference': _first_diff(a, b)}
+    hp = list(range(idx % workers, idx + 1, workers))
+    hr = list(range(rstart, idx + 1, rstep))
+    pa = _events_in_fresh(pid, tier, seed, hp, 0)
+    pb = _events_in_fresh(pid, tier, seed, hr, 0)
+    if pa is not None and pb is not None and pa != pb:
+        return 'result-depends-on-call-history', {'histories': [hp, hr], 'first_difference': _first_diff(pa, pb)}
+    pb2 = _events_in_fresh(pid, tier, seed, hr, hs)
+    if pa is not None and pb2 is not None and pa != pb2:
+        return 'result-depends-on-call-history', {'histories': [hp, hr], 'hashseeds': [0, hs],
+                                                  'first_difference': _first_diff(pa, pb2)}
+    return None, {}
+
+
+def replay_divergence(doc):
+    pid, tier, seed, idx = doc['property'], doc['tier'], doc['seed'], doc['run']
+    d = doc['divergence']
+    if 'histories' in d:
+        hs = d.get('hashseeds', [0, 0])
+        a = _events_in_fresh(pid, tier, seed, d['histories'][0], hs[0])
+        b = _events_in_fresh(pid, tier, seed, d['histories'][1], hs[1])
+    else:
+        a = _events_in_fresh(pid, tier, seed, [idx], d['hashseeds'][0])
+        b = _events_in_fresh(pid, tier, seed, [idx], d['hashseeds'][1])
+    if a != b:
+        print('  first differing event: ' + _first_diff(a, b))
+        print(f'VIOLATION property={pid} replay=(divergence of run {idx})')
+        return 1
+    print('replay: results identical on this tree')
+    return 0
+
+
 def replay_hashseed(prop, doc):
     trace = dict(doc['trace'])
     a, b = trace.pop('hashseed_pair')
@@ -530,8 +601,10 @@ def replay_hashseed(prop, doc):
 
 def events_main(a):
     prop = load_prop(a.prop)
-    trace = plan_run(prop, a.seed, a.tier, a.run)
-    res = execute(prop, trace)
+    runs = [int(x) for x in a.runs.split(',')] if getattr(a, 'runs', None) else [a.run]
+    res = None
+    for idx in runs:
+        res = execute(prop, plan_run(prop, a.seed, a.tier, idx))
     for e in res.events:
         print(e)
     return 0
